@@ -18,5 +18,16 @@ package types
 //@   ensures pow_is_a_call: typeof(node) == *dsl.BinaryExpression && node.(*dsl.BinaryExpression) != nil && node.(*dsl.BinaryExpression).Operator == dsl.BinaryOpPow ==> emittedHere("std::pow(") == 1 && emittedHere(", ") == 1 && emittedHere(")") == 1
 //@   ensures operator_tokens: typeof(node) == *dsl.BinaryExpression && node.(*dsl.BinaryExpression) != nil ==> (node.(*dsl.BinaryExpression).Operator == dsl.BinaryOpAdd ==> emittedHere("+") == 1) && (node.(*dsl.BinaryExpression).Operator == dsl.BinaryOpSub ==> emittedHere("-") == 1) && (node.(*dsl.BinaryExpression).Operator == dsl.BinaryOpMul ==> emittedHere("*") == 1) && (node.(*dsl.BinaryExpression).Operator == dsl.BinaryOpDiv ==> emittedHere("/") == 1)
 
+// C01/C14: the C++ serializers take the integer encoding of an enum or flags value from the underlying type of the
+// generated C++ type (std::underlying_type_t / value_type). That type must therefore be the C++ type of the base
+// type the model declares - aliases included, which common.TypeSyntax resolves like every other generator does -
+// and int32_t when the model declares none.
+//@ spec func enumOf(td dsl.TypeDefinition) *dsl.EnumDefinition = td.(*dsl.EnumDefinition)
+//@ spec func isEnumDef(td dsl.TypeDefinition) bool = typeof(td) == *dsl.EnumDefinition && td.(*dsl.EnumDefinition) != nil
+//@ func writeNamespaceMembers
+//@   property C01,C14
+//@   iteration 0: flags_are_declared_over_their_base_type: isEnumDef(td) && enumOf(td).IsFlags ==> emittedHere("struct %s : yardl::BaseFlags<%s, %s> {\n") == 1 && (enumOf(td).BaseType != nil ==> emittedArg("struct %s : yardl::BaseFlags<%s, %s> {\n", 0, 1) == common.TypeSyntax(enumOf(td).BaseType)) && (enumOf(td).BaseType == nil ==> emittedArg("struct %s : yardl::BaseFlags<%s, %s> {\n", 0, 1) == common.TypeSyntax(dsl.Int32Type))
+//@   iteration 0: enums_are_declared_over_their_base_type: isEnumDef(td) && !enumOf(td).IsFlags ==> (enumOf(td).BaseType != nil ==> emittedHere(": %s ") == 1 && emittedArg(": %s ", 0, 0) == common.TypeSyntax(enumOf(td).BaseType)) && (enumOf(td).BaseType == nil ==> emittedHere(": %s ") == 0)
+
 // Output and diagnostics may not depend on the iteration order of a Go map (C12): decided per `range` over a map.
 //@ map-order C12 package
